@@ -6,8 +6,8 @@ of an analytic truth motion (rv.oracles.truth_motion) sampled at interval h and
 h/2 (h/4 in thorough): per channel (position in metres, velocity, attitude as the
 rotation angle of C_ins C_true^T)
 
-    err(h) <= 4 * max |y(h) - y(h/2)| + floor        (no error component that does not vanish with h)
-    err(h/2) <= 0.75 * err(h)   while above the floor (it actually shrinks)
+    err(h) <= 6 * max |y(h) - y(h/2)| + floor        (no error component that does not vanish with h)
+    err(h/2) <= 0.9 * err(h)    while above the floor (it actually shrinks)
 
 with floor = N_steps * eps * scale * cosh(T sqrt(2 g / R)) (rounding amplified by
 the unstable vertical channel exactly as truncation is).
@@ -26,13 +26,17 @@ RULE = ('seeded analytic truth motions stratified over hemisphere (N/S x E/W inc
         '~2 g; rate and increment sensors; h in {1,2,5,10,20,50} ms; horizons 5..120 s (quick) and up to a Schuler period (thorough); '
         'non-trivial = anything but (lat 55, heading-only rotation, gentle speed); distinct = generator parameters')
 ASSUMPTIONS = ['truth kinematics written by hand from textbook formulas, checked at start-up against 6th-order finite differences '
-               '(disagreement => inconclusive)', 'a limit cannot be observed: restated as the bounded halving ladder above (K = 4; the true '
+               '(disagreement => inconclusive)', 'a limit cannot be observed: restated as the bounded halving ladder above (K = 6; the true '
                'ratio of a method of order p >= 1 is <= 2)', 'longitudes compared modulo 360 (the integrator does not wrap; not part of C01)']
 REQUIRED_OBS = ['ladders', 'channels_above_floor', 'southern', 'western', 'near_seam', 'fast', 'slow', 'high_altitude', 'rate_sensor',
                 'increment_sensor', 'integrate_calls_monitored']
 REQUIRED_CLASSES = {'all': ['rate-N', 'rate-S', 'increment-N', 'increment-S']}
 EPS = np.finfo(float).eps
 STATE = {}
+# K = 6, shrink factor 0.9: a thorough run met a correct case whose attitude error (first-order Earth-rate / transport terms plus a
+# fourth-order term of opposite sign, |lat| 84.6 deg) went 7.3e-8 -> 5.7e-8 -> 2.7e-8 -> 1.3e-8 over four halvings, i.e. 0.78 on the first
+K_LADDER = 6.0
+SHRINK = 0.9
 
 
 def setup():
@@ -150,12 +154,12 @@ def run_case(case):
                 obs['channels_above_floor'] = obs.get('channels_above_floor', 0) + 1
                 obs['max_err_over_diff_x100'] = max(obs.get('max_err_over_diff_x100', 0), int(100 * e_h / max(dd, 1e-300)))
                 obs['max_shrink_x100'] = max(obs.get('max_shrink_x100', 0), int(100 * e_h2 / e_h))
-            if e_h > 4 * dd + fl:
+            if e_h > K_LADDER * dd + fl:
                 out.append(vio('non_vanishing_error', f'{ch}: distance to the exact solution at h={hk:g} is {e_h:.3e} but halving the interval '
-                               f'changes the result only by {dd:.3e} (ratio {e_h / max(dd, 1e-300):.2f} > 4; floor {fl:.1e}); sensor={sensor}, '
+                               f'changes the result only by {dd:.3e} (ratio {e_h / max(dd, 1e-300):.2f} > {K_LADDER:g}; floor {fl:.1e}); sensor={sensor}, '
                                f'T={T:g} s, lat0={sample["lat0"]:.2f}, lon0={sample["lon0"]:.2f}, speed<={ex["speed_max"]:.0f} m/s',
                                channel=ch, h=hk, case=sample))
-            elif e_h > 100 * fl and e_h2 > 0.75 * e_h:
+            elif e_h > 100 * fl and e_h2 > SHRINK * e_h:
                 out.append(vio('not_shrinking', f'{ch}: error {e_h:.3e} at h={hk:g} but {e_h2:.3e} at h/2 (does not shrink); sensor={sensor}',
                                channel=ch, h=hk, case=sample))
         sample[f'rung{k}'] = rec
